@@ -13,7 +13,7 @@ from ..tutil import no_uids
 from ..flow import Flow
 from ..paths import path_variants, return_cases
 from ..events import root_name
-from ..tutil import (EvUnknown, ev_term, subst_params, bound_args, seq_parts, concat_parts, mapped_over, np_call,
+from ..tutil import (EvUnknown, ev_term, map_term, subst_params, bound_args, seq_parts, concat_parts, mapped_over, np_call,
                      positional, seq_elems, term_strings, literal_parts,
                      merge_fstr, expand_const_comp, simp, items_as_subs)
 
@@ -148,62 +148,82 @@ def _stream_direction(ctx):
 
 # ------------------------------------------------------------------ b
 def _first_seen_wins(ctx, f):
+    """Event-driven: inside the per-row loop over the levels, when is the
+    row kept, when is its key recorded, when does the level loop end - as a
+    truth table over (level, deduplication, key already seen).  Aliases of
+    the per-level set / batch, split or merged tests, early continue versus
+    nesting do not matter."""
+    from ..events import container_events
+    from ..inline import _loop_level_jumps
     prog = ctx.prog
     du = DefUse(prog, f)
     T = Terms(du, phi_vars=True)
     cfg = CFG(f.node)
-    # the row loop: iterates the sorted stream
-    row_loops = [n for n in ast.walk(f.node) if isinstance(n, ast.For)
-                 and ast.unparse(n.iter) == "sorted_file_iterator"]
-    ctx.require(len(row_loops) == 1, f"{f.qual}: row loop over the sorted "
-                "stream not found")
-    rl = row_loops[0]
-    row_var = rl.target.id
-    lvl_loops = [s for s in rl.body if isinstance(s, ast.For)]
-    ctx.require(len(lvl_loops) == 1, f"{f.qual}: level loop not found")
-    ll = lvl_loops[0]
-    lvl_var = ll.target.id
+    evs = container_events(f.node, T, cfg)
+    # anchor: the row of the outer loop appended to a per-level container
+    # inside the inner loop
+    keeps = []
+    for e in evs:
+        if e.kind != "append" or len(e.args) != 1 or e.recv[0] != "sub":
+            continue
+        l1 = cfg.enclosing(e.node, (ast.For,))
+        l2 = cfg.enclosing(l1, (ast.For,)) if l1 is not None else None
+        if l2 is None:
+            continue
+        if e.args[0] == ("elem", T.of(l2.iter)) and \
+                e.recv[2] == ("elem", T.of(l1.iter)):
+            keeps.append((e, l1, l2))
+    ctx.require(len(keeps) == 1, f"{f.qual}: row loop over the sorted "
+                f"stream not found ({len(keeps)} 'keep row' statements)")
+    keep, ll, rl = keeps[0]
     lv_it = T.of(ll.iter)
-    # keep statement: <batches>[level].append(row)
-    keeps = [n for n in ast.walk(ll) if isinstance(n, ast.Call)
-             and isinstance(n.func, ast.Attribute)
-             and n.func.attr == "append" and n.args
-             and isinstance(n.args[0], ast.Name)
-             and n.args[0].id == row_var]
-    ctx.require(len(keeps) == 1, f"{f.qual}: 'keep row' statement not found")
-    keep = keeps[0]
-    ctx.check(isinstance(keep.func.value, ast.Subscript) and ast.unparse(
-        keep.func.value.slice) == lvl_var, "C03b-keep-per-level", f,
-        "a kept row goes to the batch of the level being examined",
-        f"keep statement is {ast.unparse(keep)}", node=keep)
-    # membership test and add on the same set, indexed by the level
-    tests = [n for n in ast.walk(ll) if isinstance(n, ast.If)
-             and isinstance(n.test, ast.Compare)
-             and isinstance(n.test.ops[0], (ast.In, ast.NotIn))]
-    ctx.require(len(tests) == 1, f"{f.qual}: seen-set membership test not "
-                "found")
-    st = tests[0]
-    positive = isinstance(st.test.ops[0], ast.In)
-    seen_expr = st.test.comparators[0]
-    key_expr = st.test.left
-    adds = [n for n in ast.walk(ll) if isinstance(n, ast.Call)
-            and isinstance(n.func, ast.Attribute) and n.func.attr == "add"]
-    seen_t = T.of(seen_expr)
-    ok_add = len(adds) == 1 and T.of(adds[0].func.value) == seen_t and \
-        len(adds[0].args) == 1 and T.of(adds[0].args[0]) == T.of(key_expr)
-    ctx.check(ok_add, "C03b-seen-add", f,
+    LEVEL = ("elem", lv_it)
+    ROW = ("elem", T.of(rl.iter))
+    mem = []
+    for n in ast.walk(ll):
+        if isinstance(n, ast.Compare) and len(n.ops) == 1 and isinstance(
+                n.ops[0], (ast.In, ast.NotIn)):
+            t = T.of(n)
+            if root_name(t[3]) is not None and any(
+                    e_.kind == "add" and root_name(e_.recv) == root_name(
+                        t[3]) for e_ in evs) or (
+                    t[3][0] == "sub" and t[3][2] == LEVEL):
+                mem.append(t)
+    ctx.require(mem, f"{f.qual}: no membership test on a seen-set in the "
+                "level loop")
+    SEEN, KEY = mem[0][3], mem[0][2]
+    adds = [e for e in evs if e.kind == "add" and inside(e.node, ll)
+            and root_name(e.recv) == root_name(SEEN)]
+    ctx.check(len(adds) == 1 and adds[0].args == (KEY,)
+              and no_uids(adds[0].recv) == no_uids(SEEN), "C03b-seen-add", f,
               "the key tested against the seen-set is the key added to it",
-              f"test on {ast.unparse(st.test)}; adds: "
-              f"{[ast.unparse(a) for a in adds]}", node=st)
-    ctx.check(seen_t[0] == "sub" and seen_t[2] == ("elem", lv_it),
-              "C03b-seen-per-level", f,
-              "each level has its own seen-set",
-              f"seen-set expression is {show(seen_t, 100)}", node=st)
+              f"tested: {show(KEY, 80)} in {show(SEEN, 60)}; added: "
+              f"{[(show(e.args[0], 60), show(e.recv, 40)) for e in adds]}",
+              node=keep.node)
+    if len(adds) != 1:
+        return
+    add = adds[0]
+    ctx.check(keep.recv[0] == "sub" and keep.recv[2] == LEVEL
+              and keep.recv[1][0] == "var", "C03b-keep-per-level", f,
+              "a kept row goes to the batch of the level being examined",
+              f"the row is appended to {show(keep.recv, 80)}",
+              node=keep.node)
+    ctx.check(SEEN[0] == "sub" and SEEN[2] == LEVEL
+              and SEEN[1][0] == "var",
+              "C03b-seen-per-level", f, "each level has its own seen-set",
+              f"seen-set expression is {show(SEEN, 100)}", node=add.node)
+    ctx.check(all(no_uids(t[2]) == no_uids(KEY)
+                  and no_uids(t[3]) == no_uids(SEEN) for t in mem),
+              "C03b-seen-add", f,
+              "every membership test in the level loop is on the same key "
+              "and set", f"tests: {[show(t, 80) for t in mem]}",
+              node=add.node)
     # key built from the level's hash columns of this row
-    kt = T.of(key_expr)
+    kt = KEY
     ok_key = False
     why = show(kt, 160)
     inner = kt
+    hash_cols_t = None
     if inner[0] == "call" and inner[1] in ("builtins.str", "builtins.tuple",
                                            "builtins.hash") and inner[2]:
         inner = inner[2][0]
@@ -211,65 +231,103 @@ def _first_seen_wins(ctx, f):
         elt, gens = inner[2], inner[3]
         if len(gens) == 1:
             names, it, conds = gens[0]
-            it_ok = (it[0] == "sub" and it[2] == ("elem", lv_it)
-                     and not conds)
+            it_ok = (it[0] == "sub" and it[2] == LEVEL and not conds)
             elt_ok = (elt[0] == "mcall" and elt[2] == "get"
-                      and elt[1][0] == "elem" and len(elt[3]) == 1
+                      and elt[1] == ROW and len(elt[3]) == 1
                       and elt[3][0] == ("elem", it)) or (
-                elt[0] == "sub" and elt[1][0] == "elem"
+                elt[0] == "sub" and elt[1] == ROW
                 and elt[2] == ("elem", it))
             ok_key = it_ok and elt_ok
             if it_ok:
                 hash_cols_t = it[1]
     ctx.check(ok_key, "C03b-key-from-level-columns", f,
               "the entity key is built from the level's hash columns of the "
-              "current row", f"key is {why}", node=st)
-    # on every path to 'keep' the key was tested and added (unless the
-    # de-duplication guard is off)
-    sn = cfg.node_of(st).id
-    kn = cfg.node_of(keep).id
-    through = {cfg.node_of(ll).id, cfg.node_of(rl).id}
-    if adds:
-        through.add(cfg.node_of(adds[0]).id)
-    ok_path = cfg.every_path_passes(sn, kn, through)
-    wp = cfg.witness_path(sn, kn, through) if not ok_path else None
-    ctx.check(ok_path, "C03b-first-seen-wins", f,
+              "current row", f"key is {why}", node=add.node)
+    # ---- truth table
+    breaks = [n for n in _loop_level_jumps(ll.body)
+              if isinstance(n, ast.Break)]
+
+    def atoms_for(level, dd, seen):
+        def atoms(t):
+            if t == LEVEL:
+                return level
+            if t == ("param", "deduplication"):
+                return dd
+            if t[0] == "cmp" and t[1] in ("in", "not in") and \
+                    root_name(t[3]) == root_name(SEEN):
+                return seen if t[1] == "in" else not seen
+            raise KeyError(t)
+        return atoms
+
+    first = cfg.node_of(ll.body[0]).id
+    hdr = cfg.node_of(ll).id
+    n_keep = cfg.node_of(keep.stmt).id
+    n_add = cfg.node_of(add.stmt).id
+    n_brk = {cfg.node_of(b_).id for b_ in breaks}
+
+    relevant = {n_keep, n_add} | n_brk
+
+    def run(at):
+        """statements of one pass through the level loop under ``at``; a
+        test that cannot be evaluated is followed both ways when nothing
+        that is judged here comes after it, and is an analysis error
+        otherwise"""
+        def decide(test):
+            if not inside(test, ll):
+                return None
+            try:
+                return bool(ev_term(simp(T.of(test)), at))
+            except (EvUnknown, KeyError):
+                tn = cfg.node_of(cfg.stmt_of(test)).id
+                if relevant & cfg.reachable_normally(tn, avoid={hdr}):
+                    raise
+                return None
+        return cfg.visited_under(first, decide, stop={hdr})
+
+    table, bad_first, bad_loser, bad_skip, bad_guard = [], [], [], [], []
+    try:
+        for level in ("psms", "peptides", "proteins", "precursors"):
+            for dd in (True, False):
+                for seen in (True, False):
+                    vis = run(atoms_for(level, dd, seen))
+                    kept, added = n_keep in vis, n_add in vis
+                    broke = bool(n_brk & vis)
+                    runs = level != "psms" or dd
+                    row = {"level": level, "deduplication": dd,
+                           "seen": seen, "kept": kept, "recorded": added,
+                           "ends level loop": broke}
+                    table.append(row)
+                    if not runs:
+                        if not kept or added or broke:
+                            bad_guard.append(row)
+                        continue
+                    if kept != (not seen) or added != (not seen):
+                        bad_first.append(row)
+                    if level == "psms" and broke != seen:
+                        bad_loser.append(row)
+                    if level != "psms" and broke:
+                        bad_skip.append(row)
+    except (EvUnknown, KeyError) as e:
+        raise AnalysisError(f"{f.qual}: a condition of the level loop is "
+                            f"outside the evaluated fragment: {str(e)[:90]}")
+    ctx.check(not bad_first, "C03b-first-seen-wins", f,
               "a row whose key was already seen is never kept; a kept row's "
-              "key is recorded",
-              "there is a path from the seen-test to the keep statement "
-              "that neither records the key nor leaves the iteration: "
-              + (cfg.describe_path(wp) if wp else ""), node=keep)
-    # the keep is reached on every path that found the key unseen: the
-    # unseen outcome must not skip the keep
-    # seen branch: psms -> break, others -> continue
-    seen_branch = st.body if positive else st.orelse
-    brk = [n for s in seen_branch for n in ast.walk(s)
-           if isinstance(n, ast.Break)]
-    cont = [n for s in seen_branch for n in ast.walk(s)
-            if isinstance(n, ast.Continue)]
-    ok_break = False
-    for b in brk:
-        gs = [g for g in cfg.guards(b)
-              if any(g[0] is n.test for s in seen_branch
-                     for n in ast.walk(s) if isinstance(n, ast.If))]
-        for test, pol in gs:
-            if pol and isinstance(test, ast.Compare) and ast.unparse(
-                    test.left) == lvl_var and isinstance(
-                        test.ops[0], ast.Eq) and const_value(
-                            test.comparators[0]) == "psms":
-                ok_break = True
-    ctx.check(ok_break, "C03b-loser-leaves-all-levels", f,
+              "key is recorded (16 valuations)", f"deviates: {bad_first[:3]}",
+              node=keep.node)
+    ctx.check(not bad_loser, "C03b-loser-leaves-all-levels", f,
               "a PSM that lost its spectrum is not offered to any higher "
-              "level (break at the 'psms' level)",
-              "the seen-spectrum branch does not break out of the level "
-              "loop: the losing PSM of a spectrum can still represent a "
-              "peptide", node=st)
-    ctx.check(bool(cont), "C03b-seen-entity-skipped", f,
-              "a seen higher-level entity is skipped (continue) without "
-              "ending the level loop",
-              "no continue on the seen branch", node=st)
+              "level (the level loop ends at the 'psms' level)",
+              "the losing PSM of a spectrum can still represent a peptide "
+              f"(or a winner is cut off): {bad_loser[:3]}", node=add.node)
+    ctx.check(not bad_skip, "C03b-seen-entity-skipped", f,
+              "a seen higher-level entity is skipped without ending the "
+              "level loop", f"deviates: {bad_skip[:3]}", node=add.node)
+    ctx.check(not bad_guard, "C03c-dedup-guard", f,
+              "spectrum-level competition is applied iff deduplication is "
+              "on; higher levels always",
+              "with deduplication off the 'psms' level must keep every row "
+              f"and record nothing: {bad_guard[:3]}", node=add.node)
     # 'psms' is the first level and hashes the spectrum columns
-    lv_defs = T.var_defs.get(lv_it)
     first_ok = False
     if lv_it[0] == "var":
         ds = T.var_defs[lv_it]
@@ -286,54 +344,151 @@ def _first_seen_wins(ctx, f):
     ctx.check(first_ok, "C03b-psms-first", f,
               "'psms' is the first level examined for every row",
               f"levels list is built as {[d.kind for d in ds]}", node=ll)
-    if ok_key:
-        hc = [n for n in ast.walk(f.node) if isinstance(n, ast.Assign)
-              and isinstance(n.value, ast.Dict)
-              and ast.unparse(n.targets[0]) == "level_hash_columns"]
+    if ok_key and hash_cols_t is not None:
         ok_h = False
-        if len(hc) == 1:
-            d = hc[0].value
-            kt0 = Terms(du).of(d.keys[0])
-            ok_h = kt0 == ("const", "psms") and ast.unparse(
-                d.values[0]).endswith(".spectrum_columns")
+        hroot = root_name(hash_cols_t)
+        Tn = Terms(du)
+        for d in du.defs:
+            if d.name == hroot and d.kind == "assign" and \
+                    d.value is not None:
+                dt = Tn.of_def(d)
+                if dt[0] == "dict":
+                    for k_, v_ in zip(dt[1], dt[2]):
+                        if k_ == ("const", "psms") and v_[0] == "attr" and \
+                                v_[2] == "spectrum_columns":
+                            ok_h = True
+        for e in evs:
+            if e.kind == "store" and root_name(e.recv) == hroot and \
+                    e.key == ("const", "psms"):
+                ok_h = e.value[0] == "attr" and \
+                    e.value[2] == "spectrum_columns"
         ctx.check(ok_h, "C03b-psms-key-is-spectrum", f,
                   "the 'psms' level is keyed by the spectrum columns",
-                  "level_hash_columns['psms'] is not the dataset's "
-                  "spectrum_columns", node=hc[0] if hc else f.node)
-    # guard: psms-level competition only when de-duplication is on.  The
-    # conditions (inside the level loop) under which the seen-test runs are
-    # evaluated for every (level, deduplication) valuation
-    conds = [(t, o) for t, o in cfg.necessary_conditions(st)
-             if inside(t, ll) and t is not st.test]
-    flag_names = set()
-    for t, _o in conds:
-        for nm in ast.walk(t):
-            if isinstance(nm, ast.Name) and nm.id != lvl_var and \
-                    du.backward_roots(nm) == {("param", "deduplication")}:
-                flag_names.add(nm.id)
-    ok_g = bool(conds)
-    table = []
+                  f"{hroot}['psms'] is not the dataset's spectrum_columns",
+                  node=add.node)
+
+
+def _path_order(ctx, g):
+    """The list of result paths of a level is [targets path] plus the decoys
+    path iff decoys are requested - read off a structured trace of the loop
+    that fills it, for every valuation of the flags it tests (so repeated
+    statements and a small loop over the two kinds are the same thing)."""
+    import itertools
+    from ..events import container_events
+    from ..trace import Undecided, trace
+    prog = ctx.prog
+    du = DefUse(prog, g)
+    T = Terms(du)
+    cfg = CFG(g.node)
+    from ..proto import Calls
+    lc = Calls(prog, g, du=du, T=T, cfg=cfg).calls(
+        "mokapot.confidence.LinearConfidence")
+    ctx.require(len(lc) == 1, f"{g.qual}: LinearConfidence(...) not found")
+    b = bound_args(prog, lc[0][0]) or {}
+    op = b.get("out_paths")
+    ctx.require(op is not None and op[0] == "comp" and op[2][0] == "sub",
+                f"{g.qual}: out_paths handed to LinearConfidence not "
+                "recognised")
+    # events are taken with loop-carried names kept as names
+    Tv = Terms(du, phi_vars=True)
+    evs = container_events(g.node, Tv, cfg)
+    opv = [t for t, n in Calls(prog, g, du=du, T=Tv, cfg=cfg).calls(
+        "mokapot.confidence.LinearConfidence")]
+    bv = bound_args(prog, opv[0]) or {}
+    OUT = root_name(bv["out_paths"][2]) if bv.get("out_paths") and \
+        bv["out_paths"][0] == "comp" else None
+    ctx.require(OUT is not None, f"{g.qual}: container of the result paths "
+                "not found")
+    mine = [e for e in evs if root_name(e.recv) == OUT
+            and e.kind in ("store", "append", "extend", "insert", "aug")]
+    ctx.require(mine, f"{g.qual}: no updates of {OUT}")
+    def filling_loop(node):
+        """the outermost loop around ``node`` that iterates over levels
+        (its loop variable is the key the paths are filed under)"""
+        chain = cfg.enclosing_all(node, (ast.For,))
+        for lp_ in reversed(chain):
+            k = ("elem", Tv.of(lp_.iter))
+            if any(e_.kind == "store" and e_.key == k for e_ in mine):
+                return lp_
+        return None
+
+    loops = {id(filling_loop(e.node)): filling_loop(e.node) for e in mine}
+    ctx.require(len(loops) == 1 and None not in loops.values(),
+                f"{g.qual}: the result paths are not filled in one loop")
+    lp = next(iter(loops.values()))
+    LEVEL = ("elem", T.of(lp.iter))
+    by_stmt = {}
+    for e in mine:
+        by_stmt.setdefault(id(e.stmt), []).append(e)
+    # flags tested inside the loop
+    flags = set()
+    for n in ast.walk(lp):
+        if isinstance(n, (ast.If, ast.IfExp)):
+            for x in walk_term(T.of(n.test)):
+                if isinstance(x, tuple) and x and x[0] == "param":
+                    flags.add(x[1])
+    flags = sorted(flags)
+    ctx.require(len(flags) <= 5, f"{g.qual}: too many flags in the loop")
+
+    def kind_of(t):
+        ss = [x[1] for x in walk_term(t) if isinstance(x, tuple)
+              and len(x) == 2 and x[0] == "const" and isinstance(x[1], str)]
+        k = set()
+        if any("targets" in x for x in ss):
+            k.add("targets")
+        if any("decoys" in x for x in ss):
+            k.add("decoys")
+        return next(iter(k)) if len(k) == 1 else "?"
+
+    bad = []
     try:
-        for lvl in ("psms", "peptides", "proteins", "precursors"):
-            for dd in (True, False):
-                env = {lvl_var: lvl}
-                env.update({n: dd for n in flag_names})
-                runs = all(bool(eval_cond(t, env)) == o for t, o in conds)
-                table.append((lvl, dd, runs))
-                if runs != (lvl != "psms" or dd):
-                    ok_g = False
-    except CondUnknown as e:
-        ok_g = False
-        table.append(("cannot evaluate", str(e), None))
-    except KeyError as e:
-        ok_g = False
-        table.append(("unknown name", str(e), None))
-    ctx.check(ok_g, "C03c-dedup-guard", f,
-              "spectrum-level competition is applied iff deduplication is "
-              "on; higher levels always (8 valuations)",
-              "the seen-test does not run exactly when 'level != \"psms\" or "
-              f"deduplication': guards {[cond_strings(t, o) for t, o in conds]}"
-              f", (level, deduplication, runs) = {table}", node=st)
+        for vals in itertools.product((True, False), repeat=len(flags)):
+            for level in ("psms", "proteins"):
+                val = dict(zip(flags, vals))
+
+                def atoms(t, val=val, level=level):
+                    if t == LEVEL:
+                        return level
+                    if t[0] == "param" and t[1] in val:
+                        return val[t[1]]
+                    if t[0] == "phi":
+                        # a flag that is re-bound later in the enclosing
+                        # loop: either value may arrive here
+                        ps = [x for x in t[1] if x[0] == "param"
+                              and x[1] in val]
+                        if ps:
+                            return val[ps[0][1]]
+                    raise KeyError(t)
+                seq = []
+                for st, env in trace(lp.body, T, atoms):
+                    for e in by_stmt.get(id(st), ()):
+                        sub = (lambda t, env=env: map_term(
+                            t, lambda x: ("const", env[x]) if x in env
+                            else x))
+                        # terms of the traced T (loop variables as elem())
+                        vt = sub(T.of(e.stmt.value)) if isinstance(
+                            e.stmt, ast.Assign) else None
+                        if e.kind == "store" and vt is not None:
+                            if vt[0] == "list":
+                                seq = [kind_of(x) for x in vt[1]]
+                            else:
+                                seq = ["?"]
+                        elif e.kind == "append":
+                            seq.append(kind_of(sub(T.of(e.node.args[0]))))
+                        else:
+                            seq.append("?")
+                want = ["targets"] + (["decoys"] if val.get("decoys")
+                                      else [])
+                if seq != want:
+                    bad.append((val, level, seq))
+    except Undecided as e:
+        raise AnalysisError(f"{g.qual}: the loop that names the result "
+                            f"files cannot be traced: {e}")
+    ctx.check(not bad and "decoys" in flags, "C03d-path-order", g,
+              "the result paths of a level are [targets path] (+ decoys "
+              "path iff decoys)",
+              f"(flags, level, paths) = {bad[:3]}" if bad else
+              "the decoys flag is not tested", node=lp)
 
 
 def _membership(term, outcome):
@@ -497,7 +652,8 @@ def header_data_agreement(ctx, rule_id):
               "mokapot.confidence_writer.write_confidences"]]
     ctx.require(len(wc) == 1, f"{w.qual}: write_confidences call not found")
     wcf = prog.func("mokapot.confidence_writer.write_confidences")
-    out = Tw.of(prog.bind(wcf, wc[0])["out_columns"])
+    from ..tutil import norm_logic
+    out = norm_logic(Tw.of(prog.bind(wcf, wc[0])["out_columns"]))
     alts = out[1] if out[0] == "phi" else (out,)
     SELF = ("param", "self")
     P = ("attr", SELF, "_protein_column")
@@ -872,33 +1028,7 @@ def _target_decoy_routing(ctx):
               node=f.node)
     # assign_confidence: position 0 = targets path, 1 = decoys path
     g = prog.func(AC)
-    ofs = [n for n in ast.walk(g.node) if isinstance(n, ast.Assign)
-           and ast.unparse(n.targets[0]) == "out_files[level]"]
-    apd = [n for n in ast.walk(g.node) if isinstance(n, ast.Call)
-           and ast.unparse(n.func) == "out_files[level].append"]
-    du2 = DefUse(prog, g)
-    T2 = Terms(du2)
-    ok_o = False
-    why = ""
-    if len(ofs) == 1 and len(apd) == 1 and isinstance(
-            ofs[0].value, ast.List) and len(ofs[0].value.elts) == 1:
-        def strs(t):
-            return [x[1] for x in walk_term(t) if isinstance(x, tuple)
-                    and len(x) == 2 and x[0] == "const"
-                    and isinstance(x[1], str)]
-        s0 = strs(T2.of(ofs[0].value.elts[0]))
-        s1 = strs(T2.of(apd[0].args[0]))
-        ok_o = any("targets." in x for x in s0) and not any(
-            "decoys." in x for x in s0) and any(
-                "decoys." in x for x in s1) and not any(
-                    "targets." in x for x in s1)
-        why = (f"position 0 is named with {s0}, the appended path with "
-               f"{s1}")
-        cg = CFG(g.node)
-        ok_o = ok_o and "decoys" in cg.conditions(apd[0])
-    ctx.check(ok_o, "C03d-path-order", g,
-              "out_files[level] = [targets path] (+ decoys path iff decoys)",
-              why or "idiom not recognised", node=g.node)
+    _path_order(ctx, g)
     # rollup: which rows go to which output path (sink-driven)
     r = prog.func("mokapot.brew_rollup.do_rollup")
     du3 = DefUse(prog, r)
@@ -1265,30 +1395,74 @@ def _nested_sizes(nf):
 
 # ------------------------------------------------------------------ f
 def _collections_independent(ctx, f):
+    """Every container that is updated inside the per-collection loop is
+    created inside it (nothing one collection recorded can suppress or join
+    rows of another), and the result paths carry the collection's prefix.
+    Read off container events and terms - no variable is named here."""
+    from ..events import container_events
+    prog = ctx.prog
     cfg = CFG(f.node)
-    loops = [n for n in ast.walk(f.node) if isinstance(n, ast.For)
-             and "zip(psms, scores, descs, prefixes)" in ast.unparse(n.iter)]
+    du = DefUse(prog, f)
+    Tv = Terms(du, phi_vars=True)
+    T = Terms(du)
+    loops = []
+    for n in walk_own(f.node):
+        if isinstance(n, ast.For):
+            it = T.of(n.iter)
+            if it[0] == "call" and it[1] == "builtins.zip" and \
+                    ("param", "prefixes") in it[2] and \
+                    ("param", "psms") in it[2][:1]:
+                loops.append(n)
     ctx.require(len(loops) == 1, f"{f.qual}: collection loop not found")
     cl = loops[0]
-    for name in ("seen_level_entities", "batches", "handles", "out_files"):
-        defs = [n for n in ast.walk(f.node) if isinstance(n, ast.Assign)
-                and ast.unparse(n.targets[0]) == name]
-        ok = bool(defs) and all(any(x is d for x in ast.walk(cl))
-                                for d in defs)
+    PREFIX_I = T.of(cl.iter)[2].index(("param", "prefixes"))
+    evs = [e for e in container_events(f.node, Tv, cfg) if inside(e.node, cl)]
+    roots = {}
+    for e in evs:
+        r = root_name(e.recv)
+        if r is not None:
+            roots.setdefault(r, e)
+    ctx.floor("C03f-containers-updated-per-collection", len(roots), 3)
+    params = set(f.params)
+    for name, e in sorted(roots.items()):
+        defs = [d for d in du.defs if d.name == name and d.node is not None
+                and d.kind in ("assign", "for", "with", "comp")]
+        ok = name not in params and bool(defs) and all(
+            inside(d.node, cl) for d in defs)
         ctx.check(ok, "C03f-per-collection-state", f,
                   f"'{name}' is created afresh for every collection",
-                  f"'{name}' is created outside the per-collection loop: "
-                  "rows of one collection suppress or join those of "
-                  "another", node=defs[0] if defs else cl)
-    du = DefUse(ctx.prog, f)
-    T = Terms(du)
-    outs = [n for n in ast.walk(cl) if isinstance(n, ast.Assign)
-            and ast.unparse(n.targets[0]) in ("outfile_targets",
-                                              "outfile_decoys")]
-    ok = bool(outs) and all(
-        any(x == ("zipelem", 3, x[2]) for x in walk_term(T.of(o.value))
-            if x[0] == "zipelem") for o in outs)
+                  f"'{name}' is updated for every collection but created "
+                  "outside the per-collection loop: rows of one collection "
+                  "suppress or join those of another",
+                  node=defs[0].node if defs else e.node)
+    # result paths: what LinearConfidence receives as out_paths
+    from ..proto import Calls
+    lc = Calls(prog, f, du=du, T=Tv, cfg=cfg).calls(
+        "mokapot.confidence.LinearConfidence")
+    ctx.require(len(lc) == 1, f"{f.qual}: LinearConfidence(...) not found")
+    b = bound_args(prog, lc[0][0]) or {}
+    op = b.get("out_paths")
+    OUT = root_name(op[2]) if op is not None and op[0] == "comp" else None
+    ctx.require(OUT is not None, f"{f.qual}: container of the result paths "
+                "not found")
+    Te = Terms(du)
+    pe = [e for e in container_events(f.node, Te, cfg)
+          if inside(e.node, cl)]
+    vals = []
+    for e in container_events(f.node, Tv, cfg):
+        if root_name(e.recv) != OUT or not inside(e.node, cl):
+            continue
+        # re-read the value with temporaries resolved
+        if e.kind == "store" and isinstance(e.stmt, ast.Assign):
+            vt = Te.of(e.stmt.value)
+            vals.extend(vt[1] if vt[0] == "list" else [vt])
+        elif e.kind in ("append", "insert") and e.node.args:
+            vals.append(Te.of(e.node.args[-1]))
+    ok = bool(vals) and all(
+        any(isinstance(x, tuple) and x[:2] == ("zipelem", PREFIX_I)
+            for x in walk_term(v)) for v in vals)
     ctx.check(ok, "C03f-prefix-in-file-names", f,
               "result file names carry the collection's prefix",
-              "result paths do not depend on the collection prefix",
-              node=outs[0] if outs else cl)
+              "a result path does not depend on the collection prefix: "
+              f"{[show(v, 80) for v in vals if not any(isinstance(x, tuple) and x[:2] == ('zipelem', PREFIX_I) for x in walk_term(v))][:2]}",
+              node=cl)
